@@ -38,6 +38,11 @@ type Prop struct {
 
 var registry = map[string]*Prop{}
 
+// extra sub-commands (helper child processes of some checks)
+var commands = map[string]func(args []string) int{}
+
+func RegisterCommand(name string, f func(args []string) int) { commands[name] = f }
+
 func Register(p *Prop) { registry[p.ID] = p }
 
 const (
@@ -65,6 +70,9 @@ func Main() {
 		sort.Strings(ids)
 		fmt.Println(strings.Join(ids, " "))
 		os.Exit(0)
+	}
+	if f, ok := commands[os.Args[1]]; ok {
+		os.Exit(f(os.Args[2:]))
 	}
 	fmt.Fprintln(os.Stderr, "unknown command", os.Args[1])
 	os.Exit(2)
